@@ -215,6 +215,10 @@ fn command_go(
         time = Some(Duration::from_millis(move_time));
     }
 
+    // The flag must be raised before the timer thread exists, otherwise a timer
+    // with a very short budget could clear it first and the search would never be stopped
+    search_is_running.store(true, Relaxed);
+
     if let Some(time) = time {
         if !infinite {
             // Cut 5 ms from the time because sleep always takes more than given
@@ -235,7 +239,6 @@ fn command_go(
     }
 
     let thread = thread::spawn({
-        search_is_running.store(true, Relaxed);
         let data_mutex = data_mutex.clone();
         let search_is_running = search_is_running.clone();
         move || {
